@@ -353,8 +353,10 @@ def walk(node, seen=None):
         seen.add(id(n))
         yield n
         k = n.kind
-        if k in ("ref", "deref", "cast", "un", "discr", "downcast", "repeat"):
+        if k in ("ref", "deref", "cast", "discr", "downcast", "repeat"):
             st.append(n[1])
+        elif k == "un":
+            st.append(n[2])          # ("un", operator, operand)
         elif k == "field":
             st.append(n[1])
         elif k in ("index",):
@@ -1131,7 +1133,9 @@ class Inter:
                     outs = _dedup(outs)
                     return outs[0] if len(outs) == 1 else N("phi", tuple(outs))
             return n
-        if k in ("ref", "deref", "un", "discr", "repeat"):
+        if k == "un":
+            return N("un", n[1], rec(n[2]))
+        if k in ("ref", "deref", "discr", "repeat"):
             return N(k, rec(n[1]), *n[2:])
         if k == "cast":
             return N("cast", rec(n[1]), n[2], n[3])
